@@ -485,7 +485,11 @@ static inline double cmb_random_beta(const double a, const double b,
     cmb_assert_release(b > 0.0);
     cmb_assert_release(min < max);
 
-    const double x = min + (max - min) * cmb_random_std_beta(a, b);
+    double x = min + (max - min) * cmb_random_std_beta(a, b);
+    if (x > max) {
+        /* The sum may round to one ulp above max when the variate is one */
+        x = max;
+    }
 
     cmb_assert_debug((x >= min) && (x <= max));
     return x;
